@@ -18,7 +18,7 @@ def rename(e, prefix):
     if k == "var":
         return ["var", prefix + e[1]]
     if k == "idx":
-        return ["idx", prefix + e[1]] + list(e[2:])
+        return ["idx", prefix + e[1]] + [rename(i, prefix) if isinstance(i, list) else i for i in e[2:]]
     return [k] + [rename(c, prefix) if isinstance(c, list) else c for c in e[1:]]
 
 
@@ -110,7 +110,7 @@ def canon_abs(e):
     if k == "var":
         return e[1]
     if k == "idx":
-        return "%s[%s]" % (e[1], ",".join(str(i) for i in e[2:]))
+        return "%s[%s]" % (e[1], ",".join(str(i) if not isinstance(i, list) else canon_abs(i) for i in e[2:]))
     if k == "int":
         return repr(int(e[1]))
     if k == "real":
